@@ -1339,6 +1339,7 @@ func (cl *Client) close(ctx context.Context) (rerr error) {
 	// the leave sequence before we proceed. For direct consumers,
 	// assignPartitions above is synchronous.
 
+	verifPoint("close.left")
 	sessCloseCtx, sessCloseCancel := context.WithTimeout(ctx, time.Second)
 	var wg sync.WaitGroup
 	cl.allSinksAndSources(func(sns sinkAndSource) {
@@ -1374,6 +1375,7 @@ func (cl *Client) close(ctx context.Context) (rerr error) {
 	// Now we kill the client context and all brokers, ensuring all
 	// requests fail. This will finish all producer callbacks and
 	// stop the metadata loop and metrics loop.
+	verifPoint("close.prectxcancel")
 	cl.ctxCancel()
 
 	// Stop brokers outside brokersMu: stopForever fires the user's
@@ -1393,6 +1395,7 @@ func (cl *Client) close(ctx context.Context) (rerr error) {
 	// Wait for metadata to quit so we know no more erroring topic
 	// partitions will be created. After metadata has quit, we can
 	// safely stop sinks and sources, as no more will be made.
+	verifPoint("close.brokersstopped")
 	<-cl.metadone
 
 	// We do not need a lock in `sink` and `source` access because,
@@ -1402,6 +1405,7 @@ func (cl *Client) close(ctx context.Context) (rerr error) {
 		sns.source.maybeConsume() // same
 	}
 
+	verifPoint("close.prefail")
 	cl.failBufferedRecords(ErrClientClosed)
 
 	// We need one final poll: if any sources buffered a fetch, then the
